@@ -77,6 +77,11 @@ pub enum OffSpec {
     /// INVALID on purpose: k+1 bytes beyond everything reachable (probes for C07/C09); the frame is
     /// marked invalid and the executor substitutes zero bytes
     Beyond(u8),
+    /// INVALID on purpose: k+1 bytes beyond the declared window (counted from the start of the
+    /// sequence's literals, so also beyond window + current literals) but inside the frame's own earlier
+    /// output (needs that much output and no dictionary, else treated as `FromFar(0)`). A decoder
+    /// that has let go of everything older than the window must refuse it (C07 window-leak probe)
+    PastWindow(u8),
 }
 
 #[derive(Clone, Debug, Default)]
@@ -204,6 +209,24 @@ pub fn synth(spec: &FrameSpec, dict: Option<&Dict>, over_long: bool) -> SynthOut
                         invalid = true;
                         continue;
                     }
+                    let mut off = s.off;
+                    if let OffSpec::PastWindow(k) = off {
+                        let d = window.min(1 << 31) as usize + ll + 1 + k as usize;
+                        if dict_content.is_empty() && produced >= d && d < (1 << 30) {
+                            let ml = (s.ml.max(3) as usize).min(131074).min(budget);
+                            resolve_offset(d as u32 + 3, ll as u32, &mut st.rep);
+                            let start = content.len() - d;
+                            for k in 0..ml {
+                                let byte = content[start + k];
+                                content.push(byte);
+                            }
+                            budget -= ml;
+                            seqs.push((ll as u32, ml as u32, d as u32 + 3));
+                            invalid = true;
+                            continue;
+                        }
+                        off = OffSpec::FromFar(0);
+                    }
                     if reach == 0 {
                         // nothing to copy from yet: put the literals back and stop
                         content.truncate(produced - ll);
@@ -214,7 +237,7 @@ pub fn synth(spec: &FrameSpec, dict: Option<&Dict>, over_long: bool) -> SynthOut
                     let valid = |d: u32| d >= 1 && (d as usize) <= reach;
                     // resolve requested offset to an offset_value
                     let mut rep_try = st.rep;
-                    let of_value: u32 = match s.off {
+                    let of_value: u32 = match off {
                         OffSpec::Rep(k) => {
                             let k = k.clamp(1, 3) as u32;
                             let d = resolve_offset(k, ll as u32, &mut rep_try);
@@ -227,7 +250,7 @@ pub fn synth(spec: &FrameSpec, dict: Option<&Dict>, over_long: bool) -> SynthOut
                         OffSpec::Frac(f) => (1 + ((f as u64 * (reach as u64 - 1)) >> 16) as u32) + 3,
                         OffSpec::FromFar(k) => (reach as u32 - (k as u64).min(reach as u64 - 1) as u32) + 3,
                         OffSpec::Abs(d) => d.clamp(1, reach as u32) + 3,
-                        OffSpec::Beyond(_) => unreachable!(),
+                        OffSpec::Beyond(_) | OffSpec::PastWindow(_) => unreachable!(),
                     };
                     let d = resolve_offset(of_value, ll as u32, &mut st.rep) as usize;
                     debug_assert!(d >= 1 && d <= reach);
